@@ -211,6 +211,7 @@ func checkResetChain(w *World, r *Report, d *detInfo, k *kernels) {
 	}
 	r.Check(resetRings[cmp] && resetRings[dif], "F5", "detector Reset resets the comparison ring and the diff ring", w.Pos(k.reset.Pos()), fmt.Sprint(resetRings))
 	checkRingResetAndOldest(w, r, "F5")
+	checkRingMove(w, r, "F3")
 	// background frame counter: the int field incremented in updateBackground
 	bgCount := -1
 	for _, b := range k.updateBg.Blocks {
